@@ -6,11 +6,13 @@ import (
 	"context"
 	"encoding/json"
 	"fmt"
+	"os"
 	"runtime"
 	"sort"
 	"strings"
 	"sync"
 	"sync/atomic"
+	"syscall"
 	"time"
 
 	"git.sr.ht/~rockorager/vaxis"
@@ -19,6 +21,7 @@ import (
 
 	"verif/internal/gen"
 	"verif/internal/harness"
+	"verif/internal/memcon"
 	"verif/internal/refterm"
 	"verif/internal/vxh"
 )
@@ -549,11 +552,118 @@ func (c check) Run(w *harness.W, b harness.Batch) {
 		}
 	case "quiet-shutdown":
 		for i := 0; i < s.N; i++ {
+			if i%3 == 2 {
+				if !runSignalThenClose(w, gen.New(r.Int63())) {
+					break
+				}
+				continue
+			}
 			if !runQuietShutdown(w, gen.New(r.Int63())) {
 				break
 			}
 		}
 	}
+}
+
+// signalCase: a termination signal makes the library shut itself down from its
+// input goroutine; the application sees the QuitEvent and calls Close (its
+// deferred vx.Close()) while that shutdown still waits for the terminal's
+// reply. Both must complete.
+type signalCase struct {
+	Caps      uint32 `json:"caps_mask"`
+	HoldMs    int    `json:"wake_up_reply_held_ms"`
+	Signal    string `json:"signal"`
+	QueueSize int    `json:"queue_size"`
+}
+
+func runSignalThenClose(w *harness.W, r gen.R) bool {
+	sc := signalCase{Caps: []uint32{0, 0x1ffff, uint32(r.Int63()) & 0x1ffff}[r.Intn(3)], HoldMs: []int{0, 40, 150}[r.Intn(3)], Signal: []string{"SIGTERM", "SIGINT"}[r.Intn(2)], QueueSize: 1024}
+	cj, _ := json.Marshal(sc)
+	w.Begin(string(cj))
+	defer w.End()
+	before := vaxisGoroutines()
+	t := refterm.New(40, 10, refterm.CapsFromMask(sc.Caps))
+	con := memcon.New(t)
+	vx, err := vaxis.New(vaxis.Options{WithConsole: con, EventQueueSize: sc.QueueSize})
+	if err != nil {
+		w.Inconclusive("start-failed")
+		return true
+	}
+	sess := &vxh.Session{Term: t, Con: con, Vx: vx}
+	if _, ok := sess.Sync(); !ok {
+		w.Inconclusive("startup-sync-timeout")
+		return true
+	}
+	w.Case("signal-close|" + string(cj))
+	w.Count("signal_then_close_sessions", 1)
+	// the wake-up query's reply is held back for a while
+	con.With(func() {
+		con.ReplyFilter = func(rep []byte) []byte {
+			if sc.HoldMs > 0 && len(rep) > 0 {
+				held := append([]byte(nil), rep...)
+				time.AfterFunc(time.Duration(sc.HoldMs)*time.Millisecond, func() { con.Inject(held) })
+				return nil
+			}
+			return rep
+		}
+	})
+	sig := syscall.SIGTERM
+	if sc.Signal == "SIGINT" {
+		sig = syscall.SIGINT
+	}
+	syscall.Kill(os.Getpid(), sig)
+	// the application's loop: on QuitEvent, Close
+	gotQuit := false
+	deadline := time.After(10 * time.Second)
+	for !gotQuit {
+		select {
+		case ev := <-vx.Events():
+			if _, ok := ev.(vaxis.QuitEvent); ok {
+				gotQuit = true
+			}
+		case <-deadline:
+			w.Inconclusive("no-quit-event-after-signal")
+			return false
+		}
+	}
+	done := make(chan struct{})
+	go func() { vx.Close(); close(done) }()
+	timeout := time.After(20 * time.Second)
+	for closed := false; !closed; {
+		select {
+		case <-done:
+			closed = true
+		case <-vx.Events():
+		case <-timeout:
+			dump := harness.AllStacks()
+			if strings.Contains(dump, "ansi.(*Parser).WaitClose") {
+				w.ViolationStack("shutdown:close-never-returns:overlapping-signal-shutdown", "the application called Close on QuitEvent while the signal-triggered shutdown was still waiting for the terminal: Close did not return", sc, "blocked in WaitClose after 20s", "returns", dump[:min(len(dump), 6000)])
+			} else {
+				w.Inconclusive("close-timeout-without-corroboration")
+			}
+			return false
+		}
+	}
+	// the input goroutine's own shutdown must complete as well
+	var after []string
+	for i := 0; i < 300; i++ {
+		after = vaxisGoroutines()
+		if len(after) <= len(before) {
+			break
+		}
+		time.Sleep(10 * time.Millisecond)
+	}
+	if len(after) > len(before) {
+		extra := diffList(before, after)
+		key := "leak:after-signal-and-close:" + strings.Join(extra, ",")
+		if len(key) > 120 {
+			key = key[:120]
+		}
+		w.Violation(key, "goroutines started by the library are still alive 3s after the signal-triggered shutdown and the application's Close: "+strings.Join(extra, ", "), sc, strings.Join(extra, ", "), "none")
+		return false
+	}
+	w.Sample(sc)
+	return true
 }
 
 // quietCase: Suspend/Resume/Close on a quiet terminal (no input but the
